@@ -1,12 +1,13 @@
 package main
 
 import (
-	"net/http/httptest"
 	"bufio"
 	"bytes"
+	"github.com/vulcand/oxy/v2/utils"
 	"io"
 	"math/rand/v2"
 	"net/http"
+	"net/http/httptest"
 	"os"
 	"strings"
 	"sync"
@@ -26,6 +27,7 @@ func init() {
 			{Name: "request", Shards: 8, Fn: c15Request},
 			{Name: "response", Shards: 8, Fn: c15Response},
 			{Name: "inflated", Shards: 2, Fn: c15Inflated},
+			{Name: "hijackrefused", Shards: 2, Fn: c15HijackRefused},
 		},
 	})
 }
@@ -61,8 +63,8 @@ func c15Request(c *Ctx) {
 	defer srv.Close()
 	type pt struct {
 		mem, max int64
-		size    int64
-		chunked bool
+		size     int64
+		chunked  bool
 	}
 	var grid []pt
 	for _, mm := range [][2]int64{{100, 1000}, {1000, 1000}, {2000, 1000}, {512, 0}, {1, 40}, {4096, 70000}, {0, 3000}} {
@@ -192,12 +194,12 @@ func c15Request(c *Ctx) {
 }
 
 type c15RespPt struct {
-	Mem, Max  int64
-	Size      int64
-	Chunk     int
-	Status    int
-	Method    string
-	Special   string // "", cl0, grpc, panic, hijack, retry, badstatus
+	Mem, Max int64
+	Size     int64
+	Chunk    int
+	Status   int
+	Method   string
+	Special  string // "", cl0, grpc, panic, hijack, retry, badstatus
 }
 
 func c15Response(c *Ctx) {
@@ -230,6 +232,9 @@ func c15Response(c *Ctx) {
 				grid = append(grid, c15RespPt{mem, max, sz, 333, st, "GET", ""})
 			}
 			grid = append(grid, c15RespPt{mem, max, sz, 333, 200, "HEAD", ""})
+			// retry sequences whose discarded attempts are of a kind that carries no body (HEAD; Content-Length: 0 when the
+			// chunking is 7) although the handler wrote one
+			grid = append(grid, c15RespPt{mem, max, sz, 333, 200, "HEAD", "retry"}, c15RespPt{mem, max, sz, 7, 200, "GET", "retry"})
 		}
 	}
 	srv := newSwapServer()
@@ -287,6 +292,9 @@ func c15Response(c *Ctx) {
 				w.Header().Set("Grpc-Status", "13")
 			}
 			if p.Special == "retry" && k < 3 {
+				if p.Chunk == 7 {
+					w.Header().Set("Content-Length", "0")
+				}
 				w.WriteHeader(503)
 				writeBody(w)
 				if len(tmpEntries(dir)) > 0 {
@@ -491,4 +499,57 @@ func c15Inflated(c *Ctx) {
 		}
 	})
 	c.Require("inflated_nontrivial", 2)
+}
+
+// c15HijackRefused: the buffer behind a writer that offers Hijack but refuses it (oxy's own ProxyWriter over a recorder,
+// as under HTTP/2). A handler that tries to take the connection over and, refused, answers normally is held to the
+// response limit like any other: over the maximum -> an error status and none of its bytes.
+func c15HijackRefused(c *Ctx) {
+	c.Cases("case", c.N(200, 4000), func(i int, r *rand.Rand) {
+		max := int64(pick(r, []int{40, 1000, 20000}))
+		mem := int64(pick(r, []int{1, 512, 4096}))
+		size := pick(r, []int64{max - 1, max, max + 1, 3 * max, max / 2})
+		marker := []byte("ZQZQ")
+		full := bytes.Repeat(marker, int(size)/4+1)[:size]
+		refused := false
+		h := http.HandlerFunc(func(w http.ResponseWriter, req *http.Request) {
+			if hj, ok := w.(http.Hijacker); ok {
+				if conn, _, err := hj.Hijack(); err == nil {
+					conn.Close()
+					return
+				}
+				refused = true
+			}
+			w.Header().Set("X-Fallback", "normal-answer")
+			w.WriteHeader(200)
+			for off := 0; off < len(full); off += 700 {
+				_, _ = w.Write(full[off:min(off+700, len(full))])
+			}
+		})
+		buf, err := buffer.New(h, buffer.MaxResponseBodyBytes(max), buffer.MemResponseBodyBytes(mem))
+		if err != nil {
+			c.Violation("constructor", err.Error(), nil)
+			return
+		}
+		rec := httptest.NewRecorder()
+		buf.ServeHTTP(utils.NewProxyWriter(rec), httptest.NewRequest("GET", "http://front.test/upgrade", nil))
+		c.Eval()
+		desc := map[string]any{"max": max, "mem": mem, "size": size}
+		if !refused {
+			c.Count("hijack_not_refused", 1)
+			return
+		}
+		if size > max {
+			if rec.Code < 400 || bytes.Contains(rec.Body.Bytes(), marker) {
+				c.Violation("response/over-limit-status", sfmt("handler's Hijack was refused and it answered normally with %d body bytes, maximum %d: the client side got status %d and %d body bytes (handler bytes among them: %v); an error status and none of the bytes are due", size, max, rec.Code, rec.Body.Len(), bytes.Contains(rec.Body.Bytes(), marker)), desc)
+				return
+			}
+			c.Nontrivial(sfmt("hjref/%d/%d/%d", max, mem, size))
+			c.Count("refused_hijack_over_limit", 1)
+		} else if rec.Code != 200 || !bytes.Equal(rec.Body.Bytes(), full) {
+			c.Violation("response/within-limit-damaged", sfmt("handler's Hijack was refused and it answered 200 with %d body bytes (maximum %d): the client side got status %d and %d body bytes", size, max, rec.Code, rec.Body.Len()), desc)
+			return
+		}
+	})
+	c.Require("refused_hijack_over_limit", 2)
 }
